@@ -99,6 +99,14 @@ impl<I: Interner> SolverStuff<UCanonicalGoal<I>, Fallible<Solution<I>>> for &dyn
         }
     }
 
+    fn unchanged(
+        self,
+        old_answer: &Fallible<Solution<I>>,
+        current_answer: &Fallible<Solution<I>>,
+    ) -> bool {
+        old_answer == current_answer
+    }
+
     fn error_value(self) -> Fallible<Solution<I>> {
         Err(NoSolution)
     }
